@@ -11,6 +11,7 @@ import (
 	"path/filepath"
 	"runtime/debug"
 	"sort"
+	"time"
 )
 
 // Violation is one refuting observation. Signature is the oracle clause that
@@ -197,6 +198,66 @@ func Guard(f func()) (panicked bool, msg string) {
 		}
 	}()
 	f()
+	return false, ""
+}
+
+// abortBatch unwinds a batch whose current case cannot be brought to an end
+type abortBatch struct{}
+
+// GuardStuck is Guard for calls that may never return: f runs in a goroutine of its own. When it has not returned
+// after 70 s the goroutine dump is consulted once a second: a fan2go goroutine that has been waiting for a lock for
+// minutes is a deadlock (stuck = its dump block; nothing in fan2go holds a lock across a sleep or an external
+// command); without one the wait goes on (the batch watchdog, whose firing decides nothing, ends it).
+func GuardStuck(f func()) (panicked bool, msg string, stuck string) {
+	type res struct {
+		p bool
+		m string
+	}
+	done := make(chan res, 1)
+	go func() {
+		p, m := Guard(f)
+		done <- res{p, m}
+	}()
+	fin := make(chan struct{})
+	var r res
+	go func() { r = <-done; close(fin) }()
+	for {
+		returned, blk := awaitOrDeadlock(fin)
+		if returned {
+			return r.p, r.m, ""
+		}
+		if blk != "" {
+			return false, "", blk
+		}
+	}
+}
+
+// awaitOrDeadlock waits for fin. The Go runtime stamps the time a goroutine began to wait at the first garbage
+// collection after that, so one is forced 5 s into the wait; from 70 s on the goroutine dump is consulted once a second
+// for ten minutes: a fan2go goroutine that has been waiting for a lock for minutes is a deadlock (blk = its dump block).
+// returned=false with blk="" means "still running, nothing proven".
+func awaitOrDeadlock(fin <-chan struct{}) (returned bool, blk string) {
+	select {
+	case <-fin:
+		return true, ""
+	case <-time.After(5 * time.Second):
+	}
+	runtime.GC()
+	select {
+	case <-fin:
+		return true, ""
+	case <-time.After(65 * time.Second):
+	}
+	for i := 0; i < 600; i++ {
+		if blk := lockedForMinutes(); blk != "" {
+			return false, blk
+		}
+		select {
+		case <-fin:
+			return true, ""
+		case <-time.After(time.Second):
+		}
+	}
 	return false, ""
 }
 
